@@ -63,6 +63,11 @@ def configs(tier):
                             continue
                         if not q and (sum(sh) > len(sh) + 1 or K > 4):
                             continue
+                    if sum(sh) == len(sh) and not (kind == "disc" and K >= 4):
+                        # same with keyword settings: every pair kernel must receive them (all measures and keyword settings)
+                        yield dict(name="aggkw-%s-%s-K%d-%s" % (be, kind, K, "".join(map(str, sh))), what="agg", backend=be,
+                                   kind=kind, K=K, shape=list(sh), fork=(kind == "lin"), validate=2, kw=True,
+                                   cost=40 * K)
                     yield dict(name="agg-%s-%s-K%d-%s" % (be, kind, K, "".join(map(str, sh))), what="agg", backend=be,
                                kind=kind, K=K, shape=list(sh), fork=(kind == "lin"), validate=2,
                                cost=40 * 3 ** (sum(sh) - len(sh)) * K, split_forks=(7 if sum(sh) - len(sh) >= 4 else None))
@@ -106,12 +111,28 @@ def program(E, cfg):
     else:
         perms = [tuple(range(K)), tuple(reversed(range(K))), (1, 0) + tuple(range(2, K)),
                  tuple(range(1, K)) + (0,), (2, 0, 3, 1) + tuple(range(4, K)), (K - 1,) + tuple(range(K - 1))]
+    kw = {}
+    if cfg.get("kw"):
+        kw["MRTS"] = E.fresh("kw_MRTS")
+        E.assume(kw["MRTS"] > 0)
+        if kind == "lin":
+            kw["RI"] = True
+        if kind == "disc":
+            kw["max_tau"] = E.fresh("kw_max_tau")
+            E.assume(kw["max_tau"] > 0)
     with stubs.stub_pair_profile(measure, pp), hx.quiet():
-        prof = prof_f(trains)
-        dist = dist_f(trains) if py else None
-        mat = mat_f(trains) if py else None
-        others = [(pm, prof_f([trains[k] for k in pm]), dist_f([trains[k] for k in pm]) if py else None)
+        prof = prof_f(trains, **kw)
+        dist = dist_f(trains, **kw) if py else None
+        mat = mat_f(trains, **kw) if py else None
+        others = [(pm, prof_f([trains[k] for k in pm], **kw), dist_f([trains[k] for k in pm], **kw) if py else None)
                   for pm in perms[1:]]
+        for (pair, args, kws) in pp.calls:
+            for nm, val in kw.items():
+                got = kws.get(nm)
+                if got is None and args and nm == "max_tau":
+                    got = args[0]
+                E.prove(got is val or (E.mode == "concrete" and got == val),
+                        "keyword %s reaches every pair kernel of the multivariate call" % nm)
         full = (ts, te)
         fs = [pp.profile(i, j) for (i, j) in pairs]
         M = len(pairs)
